@@ -18,7 +18,7 @@ func zzRCl(p string) zzOp { return zzOp{k: 4, p: p} } // Resource(p).Clean()
 var zzC03 = []zzScenario{
 	{ // 0: six literal siblings + parameter sibling under "/" (first-byte index)
 		setup: []zzOp{zzH("/a", "GET"), zzH("/b", "GET"), zzH("/c", "GET"), zzH("/d", "GET"), zzH("/e", "GET"), zzH("/f", "GET"), zzH("/{x}", "GET")},
-		alpha: []zzOp{zzRm("/a"), zzRm("/f"), zzRm("/c", "GET"), zzRm("/{x}"), zzH("/a", "GET"), zzH("/g", "POST"), zzCl(), zzPCl("/")},
+		alpha: []zzOp{zzRm("/a"), zzRm("/f"), zzRm("/c", "GET"), zzRm("/{x}"), zzH("/a", "GET"), zzH("/g", "POST"), zzCl(), zzPCl("/"), zzPCl("/{x")},
 	},
 	{ // 1: five top-level routes not starting with '/', plus a top-level parameter
 		setup: []zzOp{zzH("x1", "GET"), zzH("y2", "GET"), zzH("z3", "GET"), zzH("v4", "GET"), zzH("w5", "GET"), zzH("{q}", "POST")},
@@ -31,6 +31,10 @@ var zzC03 = []zzScenario{
 	{ // 3: interceptor / regexp / named competing at one position
 		setup: []zzOp{zzH("/i/{n:digit}", "GET"), zzH("/i/{r:[a-c]+}", "GET"), zzH("/i/{s}", "GET"), zzH("/i/{n:digit}/x", "POST")},
 		alpha: []zzOp{zzRm("/i/{n:digit}"), zzRm("/i/{r:[a-c]+}"), zzRm("/i/{s}"), zzRm("/i/{n:digit}/x"), zzH("/i/{n:digit}", "PUT"), zzPCl("/i/{n"), zzCl(), zzH("/i/{s}/x", "GET")},
+	},
+	{ // 4: an indexed parent (>= 5 children) with a handler-less branch whose leaves go away one by one (two-level pruning)
+		setup: []zzOp{zzH("/m/1", "GET"), zzH("/m/2", "GET"), zzH("/m/3", "GET"), zzH("/m/4", "GET"), zzH("/m/5", "GET"), zzH("/m/6a", "GET"), zzH("/m/6b", "POST"), zzH("/m/{id}", "GET")},
+		alpha: []zzOp{zzRm("/m/6a"), zzRm("/m/6b"), zzRm("/m/1"), zzRm("/m/{id}"), zzPCl("/m/6"), zzPCl("/m/{id"), zzH("/m/6c", "GET"), zzRCl("/m/5")},
 	},
 }
 
